@@ -86,7 +86,7 @@ class Suite:
             outdir = os.path.join(ctx.work, 'o%d_%d_%d_%d' % (idx, vi, ci, state.get('n', 0)))
             state['n'] = state.get('n', 0) + 1
             shutil.rmtree(outdir, ignore_errors=True)
-            r = e1run.run_program(ctx, exe, nk, cfg, outdir, tag='r%d_%d_%d_%d' % (idx, vi, ci, state['n']), stall_s=30)
+            r = e1run.run_program(ctx, exe, nk, cfg, outdir, tag='r%d_%d_%d_%d' % (idx, vi, ci, state['n']), stall_s=getattr(self, 'stall_s', 30 if feat != 'ptg' else 90))     # known-finding probes stall by design: short threshold; plain programs: generous (loaded machines)
             state['out'] = outdir
             return r
         # run with stall detection through the heartbeat
